@@ -135,7 +135,7 @@ def case_hash(case):
 
 def write_replay(pid, case, outcomes, verdict, cli_outcomes=None):
     h = case_hash({'runs': case['runs'], 'sig': verdict.sig})
-    d = os.path.join(VERIF_ROOT, 'replays', pid, h)
+    d = os.path.join(os.environ.get('VERIF_REPLAY_DIR') or os.path.join(VERIF_ROOT, 'replays'), pid, h)
     os.makedirs(d, exist_ok=True)
     with open(os.path.join(d, 'case.json'), 'w') as f:
         json.dump({'property': pid, 'case': case, 'signature': verdict.sig, 'mechanism': verdict.mech,
@@ -153,7 +153,7 @@ def write_replay(pid, case, outcomes, verdict, cli_outcomes=None):
                 r.get('cwd', '.'), runner.repo_root(), runner.PY, ' '.join(_shq(a) for a in r.get('argv', []))))
     with open(os.path.join(d, 'outcome.json'), 'w') as f:
         json.dump({'fork': _trim(outcomes), 'cli': _trim(cli_outcomes)}, f, indent=1, default=str)
-    return os.path.relpath(d, VERIF_ROOT)
+    return os.path.relpath(d, VERIF_ROOT) if d.startswith(VERIF_ROOT) else d
 
 
 def _shq(a):
@@ -384,8 +384,9 @@ def run_check(check, tier, seed, replay=None):
         'assumptions': list(check.assumptions), 'wall_s': round(wall, 2), 'violations': len(report),
     }
     _validate_evidence(ev)
-    os.makedirs(os.path.join(VERIF_ROOT, 'evidence'), exist_ok=True)
-    with open(os.path.join(VERIF_ROOT, 'evidence', f'{pid}.json'), 'w') as f:
+    evdir = os.environ.get('VERIF_EVIDENCE_DIR') or os.path.join(VERIF_ROOT, 'evidence')
+    os.makedirs(evdir, exist_ok=True)
+    with open(os.path.join(evdir, f'{pid}.json'), 'w') as f:
         json.dump(ev, f, indent=1, default=str)
     for ln in lines:
         print(ln)
